@@ -30,3 +30,10 @@ impl CheckedTimeOps for Instant {
         self.0.checked_add(duration).map(Instant)
     }
 }
+
+#[cfg(mini_moka_verif)]
+impl Instant {
+    pub(crate) fn verif_std(&self) -> clock::Instant {
+        self.0
+    }
+}
